@@ -117,7 +117,13 @@ class Run:
     def queryfirst(self, klass):
         """A partially consumed evaluation of a domain-less query with a (true) condition: one result, then abandoned."""
         x = let(klass, None)
-        it = iter(an(entity(x, x.name != "")).evaluate())
+        cond = x.name != ""
+        if klass is Person:
+            # ... whose condition also reaches ANOTHER object through an attribute (the company a person works for): true for
+            # every person, and the abandoned evaluation must not keep the reached objects alive
+            from krrood.entity_query_language.entity import and_
+            cond = and_(cond, x.works_for != x)
+        it = iter(an(entity(x, cond)).evaluate())
         try:
             r = next(it, None)
         except Exception as ex:      # an exception out of an evaluation is an observation, not a harness crash
